@@ -243,7 +243,7 @@ def rule_a(ctx, out):
                 f"re-bound, and its value is observable: {why}", where(f, node),
                 {"global": f"{g[0]}.{g[1]}", "writers": sorted(gf.writers.get(g, [])), "mutators": sorted(gf.mutators.get(g, []))})
     # the reset function itself: floor on what it resets
-    ig = ctx.func("sfs_generator.gasol_optimization.init_globals")
+    ig = ctx.global_initialiser("sfs_generator.gasol_optimization", 25)
     n_reset = len(gf.must.get(ig.qual, ()))
     out.info["init_globals_resets"] = n_reset
     if n_reset < 25:
@@ -365,10 +365,10 @@ def rule_c(ctx, out):
                 if (isinstance(t, ast.Attribute) and t.attr == "split_block") or \
                         (isinstance(t, ast.Name) and t.id == "split_block" and f.module.name == "global_params.constants"
                          and any(isinstance(g, ast.Global) and "split_block" in g.names for g in own_nodes(f.node))):
-                    if f.qual == "global_params.constants.append_store_instructions_to_split":
+                    if f.module.name == "global_params.constants" and f.cls is None:
                         out.ok({"writer": f.qual})
                     else:
-                        out.bad(f"split_block-writer:{f.qual}", "constants.split_block is re-bound outside append_store_instructions_to_split", where(f, n))
+                        out.bad(f"split_block-writer:{f.qual}", "constants.split_block is re-bound outside the setter of its own module", where(f, n))
     # (5) temporary files are written, never read back by the pipeline
     reads = []
     for f in ctx.p.functions.values():
